@@ -3,7 +3,7 @@ From Coq Require Import List NArith ZArith.
 From N0 Require Import Base.PyStr Base.PyVal Xpath.Dec Xpath.DecProofs Xpath.Token Xpath.TokenProofs
   Xpath.Find Xpath.FindProofs Xpath.Write Xpath.SpecProofs Xpath.WalkProofs Xpath.TokenizeProofs Xpath.EnumProofs
   Xpath.FstrProofs Xpath.DeleteProofs Xpath.CreateProofs Xpath.AppendProofs Xpath.PureProofs
-  Xpath.PredOpsProofs Xpath.TildeListProofs Xpath.EmptyStepProofs.
+  Xpath.PredOpsProofs Xpath.TildeListProofs Xpath.EmptyStepProofs Xpath.TextLastProofs.
 Import ListNotations.
 
 (* get / first convert every exception of the resolver that the funnel names
@@ -194,3 +194,16 @@ Theorem C04_empty_step_example :
   dict_get_core 50 es_tree es_x2 false false (LVal (Leaf (SInt 9))) = Ok (es_tree, LVal (Leaf (SInt 9))).
 Proof. exact empty_step_example. Qed.
 Print Assumptions C04_empty_step_example.
+
+(* a text() condition as the LAST remaining step (any of the operators): when the node fails it, the resolver hands the
+   step back as a non-empty "not found" rest - a miss: get / first answer the default, item access raises IndexError;
+   when the node meets it, the lookup goes on with no steps left *)
+Theorem C04_text_condition_last_step :
+  forall o rl f root t par kv fstr v lit b,
+  split_name_index t = Ok ([], IdxPred s_text (op_str o) v) -> pred_literal kv v = Some lit ->
+  pred_test o kv lit = Ok b ->
+  find true rl (S f) root [t] par kv fstr =
+  (if b then find true rl f root [] par kv fstr
+   else Ok (root, false, mkF par kv None None fstr (Some [t]))) /\ rest_falsy (Some [t]) = false.
+Proof. exact text_last_step_full. Qed.
+Print Assumptions C04_text_condition_last_step.
